@@ -219,6 +219,23 @@ func runC13(ctx *Ctx) *Report {
 		rep.Record(h, string(b), nOps >= 2 && len(h.Ops) >= 5, diffs)
 		rep.Count("hist:len=" + fmtInt(len(h.Ops)/10*10) + "+")
 	})
+	// the iterator form while other trees are being built by its consumer between two items
+	{
+		var its []Case
+		enumForests(4, []string{"a", "b"}, func(f []*Tree) {
+			t := &Tree{Name: "r", Kids: f}
+			for _, brk := range []int{-1, 2} {
+				c := newCase("rootiter")
+				c.Tree, c.Fmt, c.Busy, c.Break = t.Enc(), fmtDefault, true, brk
+				its = append(its, c)
+			}
+		})
+		m := NewModel()
+		for _, c := range its {
+			rep.Record(c, caseKey(c), true, runCase(m, c))
+		}
+		m.Close()
+	}
 	// From-Markdown calls one after another on documents in different notations: each gives what it gives alone
 	{
 		var seq []Case
